@@ -105,6 +105,18 @@ CHECKS = {
              "judged on every record.",
         design="6 (C07)", technique="TLA+ defect-injecting generator + TLC exhaustive kernel/simulation + trace validation of diagnostics",
         note=DOC_NOTE + " Replay of the defect kernel is stratified per defect class at the quick tier."),
+    "C13": dict(
+        text="spec/CookMeta.tla generates the documented value shapes of the standard keys with the reading each must have "
+             "(durations computed exactly in seconds and rounded to minutes; compact HhMm; number-unit pairs over every unit "
+             "name of three converters; u32 boundary values; servings, tags, the seven name/URL forms, locale) and "
+             "out-of-form values whose reading is 'warning and nothing'. TLC enumerates key x shape x spelling x style "
+             "exhaustively; each is written through `>>` and through a YAML front matter, parsed with the bundled, the empty "
+             "and a renamed-units converter, and TLC judges the recorded warning flag and accessor results "
+             "(spec/Trace_StdMeta.tla): reading as documented, out-of-form => warning and nothing, warning <=> nothing, "
+             "typed Metadata accessors agree, servings stored for scaling.",
+        design="6 (C13), 3.10", technique="TLA+ generator of documented metadata shapes with exact predictions + TLC enumeration + trace validation of accessors",
+        note="Trusted: TLC; numbers travel as decimal strings; the renamed converter keeps `min` reachable (the reader looks "
+             "minutes up under English keys - a converter renaming that too cannot read durations, recorded as an observation)."),
     "C14": dict(
         text="The two block scanners are specified at the level of lines (spec/CookBlocks.tla: which lines start a token "
              "line given escaped newlines and multi-line block comments, which `>>` lines each scanner turns into entries, "
